@@ -3,7 +3,6 @@
 package main
 
 import (
-	"strings"
 	"bytes"
 	"crypto/tls"
 	"encoding/base64"
@@ -13,6 +12,7 @@ import (
 	"math/rand"
 	"net"
 	"net/http"
+	"strings"
 	"time"
 
 	"github.com/IrineSistiana/mosproxy/internal/zzverif/vtrace"
@@ -136,16 +136,16 @@ func httpOddities(valid []byte) [][]byte {
 	chunk := fmt.Sprintf("%x\r\n%s\r\n0\r\n\r\n", len(valid), valid)
 	h := "Host: x\r\nContent-Type: application/dns-message\r\n"
 	return [][]byte{
-		[]byte("POST /dns-query HTTP/1.1\r\n" + h + "\r\n"),                                          // POST without body and without Content-Length
-		[]byte("POST /dns-query HTTP/1.1\r\n" + h + "Content-Length: 0\r\n\r\n"),                      // empty body
-		[]byte("POST /dns-query HTTP/1.1\r\n" + h + "Transfer-Encoding: chunked\r\n\r\n" + chunk),      // chunked body
-		[]byte("POST /dns-query HTTP/1.1\r\n" + h + "Content-Length: 400\r\n\r\n" + string(valid)),     // body shorter than announced
-		[]byte("POST /dns-query HTTP/1.0\r\n" + h + "\r\n" + string(valid)),                            // HTTP/1.0, body until close
+		[]byte("POST /dns-query HTTP/1.1\r\n" + h + "\r\n"),                                                                     // POST without body and without Content-Length
+		[]byte("POST /dns-query HTTP/1.1\r\n" + h + "Content-Length: 0\r\n\r\n"),                                                // empty body
+		[]byte("POST /dns-query HTTP/1.1\r\n" + h + "Transfer-Encoding: chunked\r\n\r\n" + chunk),                               // chunked body
+		[]byte("POST /dns-query HTTP/1.1\r\n" + h + "Content-Length: 400\r\n\r\n" + string(valid)),                              // body shorter than announced
+		[]byte("POST /dns-query HTTP/1.0\r\n" + h + "\r\n" + string(valid)),                                                     // HTTP/1.0, body until close
 		[]byte("POST /dns-query HTTP/1.1\r\nHost: x\r\nContent-Length: " + fmt.Sprint(len(valid)) + "\r\n\r\n" + string(valid)), // no content type
-		[]byte("GET /dns-query HTTP/1.1\r\nHost: x\r\nAccept: application/dns-message\r\n\r\n"),        // no dns parameter
+		[]byte("GET /dns-query HTTP/1.1\r\nHost: x\r\nAccept: application/dns-message\r\n\r\n"),                                 // no dns parameter
 		[]byte("GET /dns-query?dns=%%%!! HTTP/1.1\r\nHost: x\r\nAccept: application/dns-message\r\n\r\n"),
 		[]byte("GET /dns-query?dns=" + b64 + "== HTTP/1.1\r\nHost: x\r\nAccept: application/dns-message\r\n\r\n"), // padded base64
-		[]byte("GET /dns-query?dns=" + b64 + " HTTP/1.1\r\nHost: x\r\n\r\n"),                           // no Accept header
+		[]byte("GET /dns-query?dns=" + b64 + " HTTP/1.1\r\nHost: x\r\n\r\n"),                                      // no Accept header
 		[]byte("GET /other?dns=" + b64 + " HTTP/1.1\r\nHost: x\r\nAccept: application/dns-message\r\n\r\n"),
 		[]byte("PUT /dns-query HTTP/1.1\r\n" + h + "Content-Length: 0\r\n\r\n"),
 		[]byte("HEAD /dns-query?dns=" + b64 + " HTTP/1.1\r\nHost: x\r\nAccept: application/dns-message\r\n\r\n"),
